@@ -11,34 +11,34 @@ NOTE_COMMON = ("Trusted base: Go 1.26.8 runtime and testing/synctest (virtual cl
 
 # id -> (technique, level text, design ref, note extra)
 CLAIMED = {
- "C03": ("deterministic simulation: raw HTTP clients and scripted backend around the real http.Server+mux+Pipeline+Proxy over a simulated TCP network (segmentation, latency, resets), strict wire-level response parser as oracle",
-         "Seeded search over chain configurations x request/response shapes x network fragmentation/latency x client interleavings; every exchange is compared field by field (method, path, query, headers, body, framing) between what the client sent/received and what the backend received/sent. Exploration: the input space is unbounded; framing and keep-alive reuse only show on a real byte stream, which the simulated network provides deterministically.",
+ "C03": ("deterministic simulation: raw HTTP clients and scripted backend around the real http.Server+mux+Pipeline+Proxy over a simulated TCP network (segmentation, latency, resets), strict wire-level response parser as oracle; optional retry policy, pool memory cache, mirror pool (healthy/slow/resetting/down), servers delivered by the service registry, faulty backends (mid-body reset, damaged gzip)",
+         "Seeded search over chain configurations x request/response shapes (all methods incl. HEAD, percent-encoded reserved characters in paths, gzip and Expect: 100-continue request bodies) x network fragmentation/latency x client interleavings; every exchange is compared field by field (method, path, query, headers, body, framing) between what the client sent/received and what the backend received/sent. Exploration: the input space is unbounded; framing and keep-alive reuse only show on a real byte stream, which the simulated network provides deterministically.",
          "DESIGN.md §6 C03", "net/http client and server code is real; the network is simnet."),
  "C04": ("deterministic simulation: concurrent selector and updater tasks on the real ServerPool/load balancers under the seeded scheduler (gates at atomic.Value, the round-robin counter and seeded math/rand), versioned-list reference model",
          "Seeded search over policies x server lists x keys x interleavings of selection with list replacement; each choice is judged against the set of list generations current during the call, fairness per generation at quiescent instants.",
          "DESIGN.md §6 C04", "fnSendRequest is stubbed by a recorder."),
- "C05": ("deterministic simulation: request histories from concurrent clients against the real mux with route cache, compared with quiescent cache-less / filter-less twins of the same code",
+ "C05": ("deterministic simulation: request histories from concurrent clients against the real mux with route cache, compared with quiescent cache-less / filter-less twins of the same code, across hot reloads of the filter lists (quiescent and under traffic, one reference per generation)",
          "Seeded search over allow/block lists at three levels x client addresses x request histories that populate the route cache x client interleavings; denial and routing are compared with twins and with net.IPNet membership.",
          "DESIGN.md §6 C05", "routing itself is taken from a twin of the same code (C01's domain is not judged)."),
  "C06": ("deterministic simulation: credentials produced by an independent issuer on a skewed issuer clock, delivered over a simulated TCP network through the real http.Server+mux (which drains the body) to the real Validator at drawn validator-clock instants (exp/nbf/TTL edges), with single-field corruption in flight",
          "Seeded search over validator configurations (headers/JWT/signature/basic, combined) x requests x issuer-vs-validator clock skew and exact boundary instants x one in-flight mutation of a covered element x body segmentation; accept/reject, result string, status and the body that would be forwarded are compared with what the credentials and the clock dictate.",
          "DESIGN.md §6 C06", "the issuer (JWT writer, SigV4-style signer, Basic encoder) is harness code written from the documented algorithms; both answers are accepted exactly on time edges; oauth2 and basicAuth FILE mode are not generated."),
- "C07": ("deterministic simulation: same real HTTP chain as C03 with body sizes on and around the effective limits, declared/chunked/lying lengths, over a simulated TCP network",
+ "C07": ("deterministic simulation: same real HTTP chain as C03 with body sizes on and around the effective limits, declared/chunked/lying lengths (both directions), route cache, header-conditioned path entries, Proxy compression, mirror pool and a hot update of all four limits between two rounds, over a simulated TCP network",
          "Seeded search over limit settings at path/server/pool/proxy level x body sizes around the limit x encodings x segmentation; the client-visible status/body and what the backend saw are compared with the limit rules of the statement.",
          "DESIGN.md §6 C07", "the 4 MiB default is exercised in the thorough tier only."),
  "C08": ("deterministic simulation: real CircuitBreaker + resilience wrapper under seeded scheduler and virtual clock, lock-step comparison with a reference automaton",
          "Seeded search over policies x call histories x interleavings x clock advances; every admission and recorded result of the real breaker is compared with an independent reference automaton written from the statement. Exploration is the right level: the space (histories x schedules x clock positions) is unbounded and the breaker is cheap enough for ~10^5 runs per minute.",
          "DESIGN.md §6 C08", "The last sentence of the property (Proxy maps a short-circuited call to 503/shortCircuited without contacting a server, buffered and stream requests) is decided by the sub-harness C08P (real ServerPool with an injected CircuitBreakerPolicy, scripted transport), run as part of this check."),
- "C09": ("deterministic simulation: real RateLimiter / MultiRateLimiter / RateLimiter filter (incl. reload) / MQTT limiter driven by concurrent tasks on the virtual clock, reservation-ledger oracle",
+ "C09": ("deterministic simulation: real RateLimiter / MultiRateLimiter / RateLimiter filter (incl. reload) / MQTT limiter (called directly and through the packet path of connected clients: CONNECT validation, QoS 0/1/2, DUP re-sends, reconnects, take-overs) driven by concurrent tasks on the virtual clock, reservation-ledger oracle",
          "Seeded search over policies x arrival patterns (bursts, exact period boundaries, idle gaps) x concurrent acquirers x reloads; per-period release counts, waits and rejections are checked against a ledger written from the statement.",
          "DESIGN.md §6 C09", "a hook file added by overlay reports the instants the limiter reads from its clock (still time.Now on the virtual clock)."),
- "C10": ("deterministic simulation: real ServerPool.handle with Retry/CircuitBreaker wrappers and pool time-out under concurrent clients on the virtual clock; scripted per-attempt transport outcomes, client cancellation at drawn instants (incl. exact back-off boundaries); second variant with the Proxy's real http.Transport over the simulated network against a stalling/resetting backend",
+ "C10": ("deterministic simulation: real ServerPool.handle with Retry/CircuitBreaker wrappers and pool time-out under concurrent clients on the virtual clock; scripted per-attempt transport outcomes (incl. stream responses read after the handler returned), client cancellation at drawn instants (incl. exact back-off boundaries); second variant with the Proxy's real http.Transport over the simulated network against a stalling/resetting backend",
          "Seeded search over retry policies x per-attempt outcome scripts x cancellation instants x time-outs x buffered/stream bodies x interleavings; attempts, their spacing, the final outcome and the breaker's window totals are checked against the statement, with bounded liveness (408 within the bound of simulated time) on the network variant.",
          "DESIGN.md §6 C10", "fnSendRequest is scripted in 92% of runs; 8% use the real transport over simnet."),
  "C11": ("deterministic simulation: requests kept in flight (parked at gates inside handlers/filters) while reload / Inherit / apply / delete run on the real mux, Pipeline + 12 filter kinds and TrafficController; quiescent twins per generation as oracle",
          "Seeded search over chains of old/new specs x request mixes x interleavings of request handling with mux.reload, Pipeline.Inherit (which closes the previous generation) and TrafficController create/apply/update/delete; every answer must equal, in all observed fields at once, the answer of a quiescent twin of one generation that was legitimately in effect during the request; no panic on the old generation; identical re-apply invokes no lifecycle call; untouched objects stay available.",
          "DESIGN.md §6 C11", "twins are the same code at rest; service discovery, tracing, HTTPS and filter kinds needing a cluster or remote endpoint are not generated."),
- "C12": ("deterministic simulation: request histories from concurrent clients against twin real muxes (cacheSize n vs 0), including colliding keys and constant eviction",
+ "C12": ("deterministic simulation: request histories from concurrent clients against twin real muxes (cacheSize n vs 0), including colliding keys, constant eviction, rewritten paths that coincide with literal ones, request bodies with body limits, proxy-header client IPs and hot reloads of both twins (quiescent and in flight)",
          "Seeded search over rule sets x request sequences x cache sizes x client interleavings; each answer of the cached mux must equal the cache-less twin's answer.",
          "DESIGN.md §6 C12", "the oracle is the same routing code without cache."),
  "C14": ("deterministic simulation: concurrent MQTT client tasks driving the real TopicManager/processSubscribe/processUnsubscribe/closeAndDelSession under the seeded scheduler, compared with an MQTT 3.1.1 reference matcher",
@@ -46,7 +46,7 @@ CLAIMED = {
          "DESIGN.md §6 C14", ""),
  "C15": ("deterministic simulation: real MQTT Broker (read/write loops, sessions, resend ticker on the virtual clock, topic manager) listening on the simulated network, raw MQTT clients with scripted PUBACK behaviour (prompt, omitted k times, delayed, duplicated, stop reading), publishes through the real HTTP publish handler; subscriber enumeration order is a seeded choice (map-range rewriting)",
          "Seeded search over subscriber populations with overlapping filters and mixed QoS x message QoS x enumeration orders x ack behaviours x bursts that overflow the outbound queue x interleavings; every publish must reach every eligible client (QoS0 loss only with a provably full queue), none ineligible, un-acked QoS1 packets are retransmitted until acked and not after, client QoS1 PUBLISHes reach the backend pipeline and are acked with the same id.",
-         "DESIGN.md §6 C15", "storage is the repo's mock storage; QoS2, retained messages, wills and takeover are not generated (takeover is C16)."),
+         "DESIGN.md §6 C15", "storage is the repo's mock storage behind a recording wrapper (sessions restored from storage after a complete teardown are generated); cluster member look-up faults and client DUP retries are generated; QoS2, retained messages and wills are not."),
  "C16": ("deterministic simulation: real MQTT Broker (handleConn, read/write loops, sessions, session manager, topic manager, resend tickers on the virtual clock) on the simulated network with 1-4 scripted connections contending for one client id; the instant at which a superseded connection's read loop learns of its end (reset, half-close, silence until keep-alive, late packet) is placed before/between/after the successor's steps by simnet and the scheduler; simulated session store with latency, errors and delete watch",
          "Seeded search over orders of connect / subscribe / drop / reconnect / takeover with both cleanSession values x teardown instants x pipelined packets x store latency/errors x interleavings (gates at locks, goroutine starts, selects, timers); after settling, the surviving connection's session, subscriptions (white-box and by probe publishes) and registration must be what the cleanSession rules dictate; invariants on the broker's client table at every quiescent point; admin delete disconnects.",
          "DESIGN.md §6 C16", "three genuine findings (own-delete echo, SUBACK/UNSUBACK before the snapshot is persisted) are listed as known in known_findings.txt; storage is a simulated etcd-like store."),
@@ -61,7 +61,7 @@ CLAIMED = {
          "DESIGN.md §6 C19", "simetcd replaces raft+bbolt by a linearizable in-memory model (differentially tested against the repo's embedded etcd: 40 x 80 random ops, 0 mismatches); the etcd client is a copy of client/v3 v3.5.4 with one patched line (a package-level channel that would stall the bubble); four Go runtime files are overlaid for reproducible replays (harness/simetcd/README.md)."),
  "C20": ("deterministic simulation: snapshot sequences fed through a mocked cluster syncer into the real Supervisor/ObjectRegistry/TrafficController/RawConfigTrafficController with panicking lifecycle callbacks, per-name lifecycle automaton as oracle",
          "Seeded search over snapshot histories (appear/change/unchanged/disappear/reappear/kind change/coalesced) x injected panics in Init/Inherit/Close x goroutine interleavings; recorded lifecycle calls are compared with the sequence derived from the snapshots.",
-         "DESIGN.md §6 C20", "the cluster is clustertest.MockedCluster; object kinds are recording test kinds."),
+         "DESIGN.md §6 C20", "the cluster is clustertest.MockedCluster; object kinds are recording test kinds (one registered under the kind name Pipeline so that the pipeline half of TrafficController runs); a second TrafficController namespace is driven concurrently; unusable documents are a fault kind."),
 }
 
 PENDING = {}
